@@ -176,6 +176,36 @@ func applierCase(rules []string, start http.Header) (string, bool) {
 		coqfmt.List("(rule * hmap)", steps)), true
 }
 
+// listCase runs the whole list through Headers.ModifyRequest and Headers.ModifyResponse.
+func listCase(rules []string, start http.Header) (string, bool) {
+	var hs header.Headers
+	var coq []string
+	for _, rs := range rules {
+		h, err := header.ParseHeader(rs)
+		if err != nil {
+			return "", false
+		}
+		hs = append(hs, h)
+		coq = append(coq, coqRule(h))
+	}
+	req := &http.Request{Header: start.Clone()}
+	if req.Header == nil {
+		req.Header = http.Header{}
+	}
+	res := &http.Response{Header: start.Clone()}
+	if res.Header == nil {
+		res.Header = http.Header{}
+	}
+	if err := hs.ModifyRequest(req); err != nil {
+		return "", false
+	}
+	if err := hs.ModifyResponse(res); err != nil {
+		return "", false
+	}
+	return fmt.Sprintf("{| l_rules := %s; l_start := %s; l_final_req := %s; l_final_resp := %s |}",
+		coqfmt.List("rule", coq), coqfmt.Header(start), coqfmt.Header(req.Header), coqfmt.Header(res.Header)), true
+}
+
 func writeShard(dir, kind string, idx int, typ, modelF, propF string, cases []string) error {
 	var sb strings.Builder
 	sb.WriteString("From G16 Require Import Check.\nOpen Scope N_scope.\n")
@@ -210,6 +240,7 @@ func main() {
 		ShardSize     int            `json:"shard_size"`
 		SamplesParser []string       `json:"samples_parser"`
 		SamplesApply  []acaseJSON    `json:"samples_applier"`
+		ListCases     int            `json:"list_cases"`
 		E2ECases      int            `json:"e2e_cases"`
 		E2EKinds      map[string]int `json:"e2e_kinds"`
 		E2EError      string         `json:"e2e_error"`
@@ -246,6 +277,11 @@ func main() {
 			writeShard(*out, "acases", 0, "acase", "acase_model_ok", "acase_prop_ok", []string{c})
 			writeJSONL(*out, "acases.jsonl", []any{acaseJSON{rp.Rules, rp.Start}})
 			m.Shards = []string{"acases_000.v"}
+			if l, ok := listCase(rp.Rules, rp.Start); ok {
+				writeShard(*out, "lcases", 0, "lcase", "lcase_model_ok", "lcase_prop_ok", []string{l})
+				writeJSONL(*out, "lcases.jsonl", []any{acaseJSON{rp.Rules, rp.Start}})
+				m.Shards = append(m.Shards, "lcases_000.v")
+			}
 		}
 		writeMeta(*out, m)
 		return
@@ -338,6 +374,25 @@ func main() {
 	}
 	writeJSONL(*out, "acases.jsonl", aj)
 	m.SamplesApply = []acaseJSON{aj[len(aj)-1].(acaseJSON), aj[len(aj)/2].(acaseJSON)}
+
+	// ---- whole-list stream: Headers.ModifyRequest / ModifyResponse on the same lists
+	var lc []string
+	for _, it := range aj {
+		c := it.(acaseJSON)
+		if s, ok := listCase(c.Rules, c.Start); ok {
+			lc = append(lc, s)
+		}
+	}
+	m.ListCases = len(lc)
+	for i := 0; i*m.ShardSize < len(lc); i++ {
+		hi := (i + 1) * m.ShardSize
+		if hi > len(lc) {
+			hi = len(lc)
+		}
+		writeShard(*out, "lcases", i, "lcase", "lcase_model_ok", "lcase_prop_ok", lc[i*m.ShardSize:hi])
+		m.Shards = append(m.Shards, fmt.Sprintf("lcases_%03d.v", i))
+	}
+	writeJSONL(*out, "lcases.jsonl", aj)
 
 	// ---- end-to-end stream (real binary)
 	if *fwdBin != "" {
